@@ -559,6 +559,25 @@ func gen(g *vh.Gen) {
 		}
 		g.Emit("tls", en, tlsInit, strings.Join(sessions, ";"))
 	}
+	// overlapping connections to one server (kind overlap): A logs in and stays, B logs in to the same
+	// mailbox, C to another; every command is owed a reply
+	ovInit := vh.HS("bob") + ":" + vh.HS("A: 1\r\n\r\nx\r\n") + "." + vh.HS("B: 2\r\n\r\ny\r\n") + ";" + vh.HS("carol") + ":" + vh.HS("c\r\n")
+	ovCmds := []string{"APOP bob x", "APOP bob x", "APOP carol x", "USER bob", "USER carol", "PASS x", "STAT", "LIST", "DELE 1", "DELE 2", "RSET", "UIDL", "NOOP", "QUIT", "RETR 1", "CAPA"}
+	for i := 0; i < g.N(120, 5000); i++ {
+		var steps []string
+		if i%3 == 0 {
+			// the canonical overlap: same mailbox twice, then a third login elsewhere
+			steps = append(steps, "a:"+vh.HS("APOP bob x\r\n"), "b:"+vh.HS(g.Pick("APOP bob x\r\n", "USER bob\r\n")), "b:"+vh.HS("PASS x\r\n"),
+				"c:"+vh.HS("APOP "+g.Pick("carol", "bob", "zed")+" x\r\n"), "c:"+vh.HS("STAT\r\n"), "a:"+vh.HS("STAT\r\n"))
+		}
+		for j, n := 0, g.Intn(12); j < n; j++ {
+			steps = append(steps, g.Pick("a", "a", "b", "b", "c", "d")+":"+vh.HS(g.Pick(ovCmds...)+"\r\n"))
+		}
+		if len(steps) == 0 {
+			steps = []string{"a:" + vh.HS("NOOP\r\n")}
+		}
+		g.Emit("overlap", []string{"mem", "file"}[i%2], ovInit, strings.Join(steps, ","))
+	}
 	// exhaustive small dialogues: every pair of transaction commands on a 2-message mailbox
 	cmds := []string{"STAT", "LIST", "LIST 1", "LIST 2", "LIST 3", "UIDL", "UIDL 2", "DELE 1", "DELE 2", "DELE 0", "RETR 1", "RETR 3",
 		"TOP 2 1", "TOP 1 0", "RSET", "NOOP", "QUIT", "CAPA", "USER a", ""}
